@@ -130,10 +130,23 @@ Definition nh_compl (a b : nh_beh) : bool :=
   (nh_role_eqb (nb_role a) NhSender && nh_role_eqb (nb_role b) NhReceiver) ||
   (nh_role_eqb (nb_role a) NhReceiver && nh_role_eqb (nb_role b) NhSender).
 
+(* "the receiver is still listening when the sender starts": the receiver's ReadTimeoutMs covers the server's stagger
+   before the sender's response, the sender's SendDelayMs and a margin; the sender itself waits at least the margin *)
+Definition nh_margin : Z := 3000.
+Definition nh_timing_pair (D : nh_data) (cb vb : nh_beh) : bool :=
+  match nh_read_timeouts (nd_timing D) cb vb with
+  | Some (vrt, crt) =>
+      (if nh_role_eqb (nb_role cb) NhSender
+       then (vrt >=? nb_delay cb + tm_stagger_c (nd_timing D) + nh_margin) && (crt >=? nh_margin) else true) &&
+      (if nh_role_eqb (nb_role vb) NhSender
+       then (crt >=? nb_delay vb + tm_stagger_v (nd_timing D) + nh_margin) && (vrt >=? nh_margin) else true)
+  | None => false
+  end.
+
 Definition nh_valid_entry (D : nh_data) (e : Z * Z) : bool :=
   let '(m, i) := e in
   (0 <=? i) && (i <? nh_len (nh_table D m)) &&
-  match nh_beh_by_mode_index D m i with Some (a, b) => nh_compl a b | None => false end.
+  match nh_beh_by_mode_index D m i with Some (a, b) => nh_compl a b && nh_timing_pair D a b && nh_timing_pair D b a | None => false end.
 
 (* the part of a feature that NewMakeHoleRecords and the swap guards look at *)
 Definition nh_norm (f : nh_feature) : nh_feature :=
@@ -268,6 +281,7 @@ Section CheckerSound.
     nh_compl (rc_cbeh r) (rc_vbeh r) = true /\
     0 <= rc_index r < nh_len (nh_table D (rc_mode r)) /\
     nh_rule_holds (rc_mode r) c v (rc_cbeh r) (rc_vbeh r) = true /\
+    nh_timing_pair D (rc_cbeh r) (rc_vbeh r) = true /\
     exists c0 v0, In (rc_mode r, rc_index r) (nh_entries (nh_init_scores D c0 v0)).
 
   Lemma nh_rule_other m c v cb vb : ~ In m [1; 2; 4] -> nh_rule_holds m c v cb vb = true.
@@ -281,21 +295,18 @@ Section CheckerSound.
   Lemma nh_valid_entry_behaviors m i c v :
     nh_valid_entry D (m, i) = true ->
     exists cb vb, nh_behaviors D m i c v = Some (cb, vb) /\ nh_compl cb vb = true /\
-                  0 <= i < nh_len (nh_table D m) /\ nh_rule_holds m c v cb vb = true.
+                  0 <= i < nh_len (nh_table D m) /\ nh_rule_holds m c v cb vb = true /\ nh_timing_pair D cb vb = true.
   Proof.
     intros H. unfold nh_valid_entry in H. rewrite !andb_true_iff in H. destruct H as [[H1 H2] H3].
     assert (Hi : 0 <= i < nh_len (nh_table D m)) by lia.
-    destruct (in_dec Z.eq_dec m [1; 2; 4]) as [Hm|Hm].
-    - destruct (nh_ok_rule m i c v Hm Hi) as [cb [vb [E R]]]. exists cb, vb. repeat split; try assumption; try lia.
-      unfold nh_behaviors in E. destruct (nh_beh_by_mode_index D m i) as [[a b]|]; [|discriminate].
-      injection E as E. unfold nh_apply_swap in E.
-      destruct (nh_zassoc m (nd_swaps D)) as [g|]; [destruct (nh_eval_guard g c v)|]; cbn in E; injection E as <- <-;
-        first [assumption | rewrite nh_compl_swap; assumption].
-    - unfold nh_behaviors. destruct (nh_beh_by_mode_index D m i) as [[a b]|]; [|discriminate].
-      unfold nh_apply_swap.
-      destruct (nh_zassoc m (nd_swaps D)) as [g|]; [destruct (nh_eval_guard g c v)|]; cbn;
-        eexists _, _; (split; [reflexivity|]); repeat split; try lia; try (now apply nh_rule_other);
-        first [assumption | rewrite nh_compl_swap; assumption].
+    assert (Hrule : forall cb vb, nh_behaviors D m i c v = Some (cb, vb) -> nh_rule_holds m c v cb vb = true).
+    { intros cb vb E. destruct (in_dec Z.eq_dec m [1; 2; 4]) as [Hm|Hm]; [|now apply nh_rule_other].
+      destruct (nh_ok_rule m i c v Hm Hi) as [cb' [vb' [E' R]]]. congruence. }
+    revert Hrule. unfold nh_behaviors. destruct (nh_beh_by_mode_index D m i) as [[a b]|]; [|discriminate].
+    rewrite !andb_true_iff in H3. destruct H3 as [[Hc Hab] Hba]. unfold nh_apply_swap.
+    destruct (nh_zassoc m (nd_swaps D)) as [g|]; [destruct (nh_eval_guard g c v)|]; cbn; intros Hrule;
+      eexists _, _; (split; [reflexivity|]); repeat split; try lia; try (apply Hrule; reflexivity); try assumption.
+    now rewrite nh_compl_swap.
   Qed.
 
   Lemma nh_get_recommand_ok a k c v :
@@ -313,7 +324,7 @@ Section CheckerSound.
       exfalso. destruct (nh_ok_init c0 v0) as [Hne _]. subst l. rewrite Hnil in Hl.
       destruct (nh_init_scores D c0 v0); [now apply Hne|discriminate]. }
     destruct (nh_ok_init c0 v0) as [_ Hv]. destruct (Hv _ Hin) as [Hvalid _].
-    destruct (nh_valid_entry_behaviors m i c v Hvalid) as [cb [vb [Eb [Hc [Hi Hr]]]]].
+    destruct (nh_valid_entry_behaviors m i c v Hvalid) as [cb [vb [Eb [Hc [Hi [Hr Htm]]]]]].
     rewrite Eb. eexists _, _. split; [reflexivity|]. split.
     - apply (nh_inv_set a k l' c0 v0 Ha). now rewrite H1.
     - unfold nh_reco_ok; cbn. repeat split; try assumption; try lia. eauto.
@@ -481,6 +492,11 @@ Definition nh_instruction_pair (sid : bytes) (vm : nh_vmsg) (cm : nh_cmsg) (rv r
                 nh_classify (vm_mapped vm) (nh_parse_ips (vm_assisted vm)) = inl vf /\
                 nh_rule_roles (r_mode rv) cf vf (r_role rc) (r_role rv) = true.
 
+(* the receiver is still listening when the sender starts *)
+Definition nh_resp_timing (D : nh_data) (rv rc : nh_resp) : Prop :=
+  (r_role rc = NhSender -> r_read_timeout rv >= r_delay rc + tm_stagger_c (nd_timing D) + nh_margin /\ r_read_timeout rc >= nh_margin) /\
+  (r_role rv = NhSender -> r_read_timeout rc >= r_delay rv + tm_stagger_v (nd_timing D) + nh_margin /\ r_read_timeout rv >= nh_margin).
+
 Definition nh_error_pair (vm : nh_vmsg) (cm : nh_cmsg) (rv rc : nh_resp) : Prop :=
   exists e, e <> NeNone /\ rv = nh_err_resp (vm_tid vm) e /\ rc = nh_err_resp (cm_tid cm) e.
 
@@ -496,7 +512,7 @@ Section Analysis.
   Lemma nh_responses_ok a sid vm cm :
     nh_inv D a ->
     exists a' rv rc, nh_responses D a sid vm cm = Some (a', rv, rc) /\ nh_inv D a' /\
-                     (nh_instruction_pair sid vm cm rv rc \/ (nh_error_pair vm cm rv rc /\ a' = a)).
+                     ((nh_instruction_pair sid vm cm rv rc /\ nh_resp_timing D rv rc) \/ (nh_error_pair vm cm rv rc /\ a' = a)).
   Proof.
     intros Ha. unfold nh_responses, nh_analysis.
     destruct (nh_classify (cm_mapped cm) _) as [cf|e] eqn:Ec.
@@ -506,8 +522,11 @@ Section Analysis.
     2:{ eexists _, _, _. split; [reflexivity|]. split; [assumption|]. right. split; [|reflexivity].
         exists (NeClassifyVisitor e). repeat split. discriminate. }
     destruct (nh_get_recommand_ok D OK a (nh_analysis_key vm vf cm cf) cf vf Ha) as [a' [r [E [Ha' Hr]]]].
-    rewrite E. eexists _, _, _. split; [reflexivity|]. split; [assumption|]. left.
-    destruct Hr as [Hc [_ [Hrule _]]].
+    rewrite E. destruct Hr as [Hc [_ [Hrule [Htm _]]]].
+    pose proof Htm as Htm'. unfold nh_timing_pair in Htm'.
+    destruct (nh_read_timeouts (nd_timing D) (rc_cbeh r) (rc_vbeh r)) as [[vrt crt]|]; [|discriminate].
+    eexists _, _, _. split; [reflexivity|]. split; [assumption|]. left. split.
+    2:{ unfold nh_resp_timing; cbn. rewrite andb_true_iff in Htm'. destruct Htm' as [T1 T2]. split; intros Hs; rewrite Hs in *; cbn in *; lia. }
     pose proof (nh_classify_inl _ _ _ Ec) as [Lc [Fc [Dc _]]].
     pose proof (nh_classify_inl _ _ _ Ev) as [Lv [Fv [Dv _]]].
     unfold nh_instruction_pair; cbn. repeat split; try reflexivity; try assumption.
